@@ -1,7 +1,147 @@
-(* C10 -- proofs about the reference-count / pool model (stage 1: basic facts). *)
+(* C10 -- the theorems about the reference-count transition system (Conc/RefCnt.v):
+   every atomic step of any thread preserves the counting invariant [inv1] and raises no lifetime
+   violation; hence in every reachable state of any number of threads running any programs the
+   count of an object equals the number of counting references to it (slots plus the references in
+   flight), a released object is referenced by nothing, and each object is released exactly as
+   often as it was brought to life. *)
 From Coq Require Import List Arith Bool Lia.
-From Muscle Require Import Conc.Pool Conc.RefCnt.
+From Muscle Require Import Conc.Pool Conc.PoolProofs Conc.RefCnt Conc.RefInv Conc.RefExcl Conc.RefStep
+  Conc.RefActs Conc.RefActs2 Conc.RefActs3 Conc.RefActs4 Conc.RefActs5.
 Import ListNotations.
+Local Open Scope nat_scope.
 
-Lemma upd_length : forall A (l : list A) i v, length (upd l i v) = length l.
-Proof. induction l as [|h t IH]; intros [|i] v; cbn; auto. Qed.
+Definition prog_ok (o : op) : bool := match o with OAssignOld _ _ => false | _ => true end.
+
+Section Main.
+Variables N K : nat.
+
+Lemma upd_app_last : forall A (h : list A) x y, upd (h ++ [x]) (length h) y = h ++ [y].
+Proof. induction h as [|a h IH]; intros; cbn; auto. rewrite IH. reflexivity. Qed.
+
+Lemma ok_single : forall s t stk a, single_ok a -> (forall l, a = APoolObt l -> wloc_ok (s_heap s) stk l) ->
+  (forall l, a <> AUntag l) -> acts_ok s t stk [a].
+Proof.
+  intros s t stk a Ha Hl Hn. constructor.
+  - apply sh_single; auto.
+  - intros b [<-|[]]. destruct a; cbn in Ha |- *; try tauto; auto. exfalso. eapply Hn; eauto.
+  - intros o' [H|[]]. subst a. cbn in Ha. tauto.
+  - intros z. destruct a; cbn in Ha |- *; try tauto; reflexivity.
+  - intros z. destruct a; cbn in Ha |- *; try tauto; reflexivity.
+  - intros z Hz. destruct a; cbn in Ha, Hz; try tauto; lia.
+Qed.
+
+Lemma resolve_rw : forall h stk l x r1 v1 r2 v2, resolve_r h stk l = Some (r1, v1) -> resolve_w h stk l x = Some (r2, v2) ->
+  r1 = r2 /\ v1 = v2.
+Proof.
+  intros h stk [i|i j] x r1 v1 r2 v2 H1 H2; cbn [resolve_r resolve_w] in *.
+  - destruct (i <? length stk); inversion H1; inversion H2; subst; auto.
+  - destruct (nth i stk None) as [[y [|]]|]; try discriminate.
+    destruct (j <? length (o_mem (get_obj h y))); cbn [andb] in *; try discriminate.
+    destruct ((o_cnt (get_obj h y) =? 1) && negb (opt_eqb x (Some y))); inversion H1; inversion H2; subst; auto.
+Qed.
+
+Lemma begin_inv : forall s t stk op prog, inv1 K s -> t < length (s_thr s) ->
+  thr s t = mkThr stk [] (op :: prog) -> prog_ok op = true ->
+  forall h' stk' todo' ok, begin_op K (s_heap s) stk op = (h', stk', todo', ok) ->
+  inv1 K (with_thr s t (mkThr stk' todo' prog) h' (s_pool s)).
+Proof.
+  intros s t stk op prog I Ht E Hop h' stk' todo' ok Hb.
+  assert (Es : t_stk (thr s t) = stk) by (rewrite E; auto).
+  assert (Hskip : inv1 K (with_thr s t (mkThr stk [] prog) (s_heap s) (s_pool s))).
+  { apply (begin_core K s t stk op prog []); auto. apply acts_nil. }
+  destruct op as [i pooled|dst src|dst src|dst src|l|a b|dst src|i v|]; cbn [begin_op] in Hb; try discriminate.
+  - (* ONew *)
+    destruct (i <? length stk) eqn:Ei; [|injection Hb as <- <- <- <-; exact Hskip]. apply Nat.ltb_lt in Ei.
+    destruct pooled.
+    + injection Hb as <- <- <- <-. apply (begin_core K s t stk (ONew i true) prog); auto.
+      apply ok_single; [exact Logic.I| |discriminate]. intros l Hl. inversion Hl; subst. exact Ei.
+    + injection Hb as <- <- <- <-. set (x := fresh_obj K false Dead). set (o := length (s_heap s)).
+      pose proof (append_core K s [x] (s_pool s) I) as I1.
+      assert (Hx : Forall (inert K) [x]) by (constructor; [apply fresh_inert; auto|constructor]).
+      specialize (I1 Hx). set (s1 := mkSt (s_heap s ++ [x]) (s_thr s) (s_pool s)) in *.
+      assert (Hox : hobj s1 o = x) by (unfold hobj, s1, get_obj, o; cbn [s_heap]; apply nth_app_new).
+      assert (Hcur : nth i stk None <> Some (o, true)).
+      { intros Hc. assert (Hc' : nth i (t_stk (thr s t)) None = Some (o, true)) by (rewrite E; auto).
+        destruct (held_live K s t i o I Ht Hc') as (Hl & _). apply live_lt in Hl. unfold o in Hl. lia. }
+      destruct (setref_fresh (RStk i) _ o Hcur) as (mid & Eacts & Hmid). fold o.
+      match goal with |- inv1 _ (with_thr _ _ {| t_stk := _; t_todo := ?T; t_prog := _ |} _ _) =>
+        change T with (setref_acts (RStk i) (nth i stk None) (Some o) true None) end.
+      rewrite Eacts.
+      pose proof (birth_core K s1 t stk [] (ONew i false :: prog) prog o (RStk i) mid (s_pool s) I1 Ht E) as HB.
+      rewrite Hox in HB. replace (upd (s_heap s1) o (born x)) with (s_heap s ++ [born x]) in HB
+        by (unfold s1, o; cbn [s_heap]; symmetry; apply upd_app_last).
+      apply HB; auto.
+      * unfold s1, o; cbn [s_heap]. rewrite app_length. cbn. lia.
+  - (* OAssign *)
+    destruct (resolve_r (s_heap s) stk src) as [[rs p]|] eqn:Er; [|injection Hb as <- <- <- <-; exact Hskip].
+    destruct (resolve_w (s_heap s) stk dst (ptr p)) as [[rd q]|] eqn:Ew; injection Hb as <- <- <- <-; [|exact Hskip].
+    destruct (resolve_r_spec _ _ _ _ _ Er) as (Ep & Hv). destruct (resolve_w_spec _ _ _ _ _ _ Ew) as (Eq & W & NS).
+    apply (begin_core K s t stk (OAssign dst src) prog); auto.
+    destruct p as [[o c]|]; cbn [ptr counting].
+    + apply setref_ok; auto. intros ->. apply (src_justifies K s t stk rs o I Ht Es); auto.
+    + apply reset_ok; auto.
+  - (* OAlias *)
+    destruct (resolve_r (s_heap s) stk src) as [[rs p]|] eqn:Er; [|injection Hb as <- <- <- <-; exact Hskip].
+    destruct (resolve_w (s_heap s) stk dst (ptr p)) as [[rd q]|] eqn:Ew; injection Hb as <- <- <- <-; [|exact Hskip].
+    destruct (resolve_w_spec _ _ _ _ _ _ Ew) as (Eq & W & NS).
+    apply (begin_core K s t stk (OAlias dst src) prog); auto.
+    destruct p as [[o c]|]; cbn [ptr counting].
+    + apply setref_ok; auto. discriminate.
+    + apply reset_ok; auto.
+  - (* OReset *)
+    destruct (resolve_w (s_heap s) stk l None) as [[rd q]|] eqn:Ew; injection Hb as <- <- <- <-; [|exact Hskip].
+    destruct (resolve_w_spec _ _ _ _ _ _ Ew) as (Eq & W & NS).
+    apply (begin_core K s t stk (OReset l) prog); auto. apply reset_ok; auto.
+  - (* OSwap *)
+    destruct (resolve_r (s_heap s) stk a) as [[ra0 va]|] eqn:Era; [|injection Hb as <- <- <- <-; exact Hskip].
+    destruct (resolve_r (s_heap s) stk b) as [[rb0 vb]|] eqn:Erb; [|injection Hb as <- <- <- <-; exact Hskip].
+    destruct (resolve_w (s_heap s) stk a (ptr vb)) as [[ra qa]|] eqn:Ewa; [|injection Hb as <- <- <- <-; exact Hskip].
+    destruct (resolve_w (s_heap s) stk b (ptr va)) as [[rb qb]|] eqn:Ewb; [|injection Hb as <- <- <- <-; exact Hskip].
+    destruct (resolve_rw _ _ _ _ _ _ _ _ Era Ewa) as (<- & <-). destruct (resolve_rw _ _ _ _ _ _ _ _ Erb Ewb) as (<- & <-).
+    destruct (resolve_r_spec _ _ _ _ _ Era) as (Eva & _). destruct (resolve_r_spec _ _ _ _ _ Erb) as (Evb & _).
+    destruct (resolve_w_spec _ _ _ _ _ _ Ewa) as (_ & Wa & _). destruct (resolve_w_spec _ _ _ _ _ _ Ewb) as (_ & Wb & _).
+    destruct (rloc_eqb ra0 rb0) eqn:Eab; [injection Hb as <- <- <- <-; exact Hskip|].
+    destruct (write_slot (s_heap s) stk ra0 vb) as [h1 stk1] eqn:Hw1.
+    destruct (write_slot h1 stk1 rb0 va) as [h2 stk2] eqn:Hw2. injection Hb as <- <- <- <-.
+    destruct (wloc_valid K s t stk ra0 I Ht Es Wa) as (Va & Ta). destruct (wloc_valid K s t stk rb0 I Ht Es Wb) as (Vb & Tb).
+    destruct (write_facts _ _ _ _ _ _ Hw1 Va) as (L1 & S1 & F1 & G1 & B1 & R1 & O1).
+    assert (Vb1 : loc_valid h1 stk1 rb0).
+    { destruct rb0 as [i|q j]; cbn in Vb |- *; [lia|]. destruct (F1 q) as (_ & _ & _ & _ & _ & ->). lia. }
+    destruct (write_facts _ _ _ _ _ _ Hw2 Vb1) as (L2 & S2 & F2 & G2 & B2 & R2 & O2).
+    apply (heapeq_core K s t stk (OSwap a b) prog h2 stk2); auto.
+    + lia.
+    + intros z. destruct (F1 z) as (A1 & A2 & A3 & A4 & A5 & A6). destruct (F2 z) as (C1 & C2 & C3 & C4 & C5 & C6).
+      rewrite C1, C2, C3, C4, C5, C6. auto 10.
+    + intros z. destruct (mem_of ra0 z) eqn:Ea; [left; apply Ta; auto|].
+      destruct (mem_of rb0 z) eqn:Eb; [left; apply Tb; auto|]. right. rewrite (G2 z Eb), (G1 z Ea). reflexivity.
+    + intros o. pose proof (B1 o) as X1. pose proof (B2 o) as X2. rewrite (O1 rb0 Eab) in X2. rewrite <- Eva, <- Evb in *. lia.
+  - (* OConstCast *)
+    destruct (resolve_r (s_heap s) stk src) as [[rs p]|] eqn:Er; [|injection Hb as <- <- <- <-; exact Hskip].
+    destruct (resolve_w (s_heap s) stk dst (ptr p)) as [[rd q]|] eqn:Ew; injection Hb as <- <- <- <-; [|exact Hskip].
+    destruct (resolve_r_spec _ _ _ _ _ Er) as (Ep & Hv). destruct (resolve_w_spec _ _ _ _ _ _ Ew) as (Eq & W & NS).
+    apply (begin_core K s t stk (OConstCast dst src) prog); auto.
+    destruct p as [[o c]|]; cbn [ptr counting castassign_acts].
+    + apply cast_ok; auto. intros ->. apply (src_justifies K s t stk rs o I Ht Es); auto.
+    + apply reset_ok; auto.
+  - (* OSetVal *)
+    destruct (nth i stk None) as [[q [|]]|] eqn:Eq; try (injection Hb as <- <- <- <-; exact Hskip).
+    destruct (o_cnt (get_obj (s_heap s) q) =? 1) eqn:Ec; injection Hb as <- <- <- <-; [|exact Hskip].
+    assert (Hq' : nth i (t_stk (thr s t)) None = Some (q, true)) by (rewrite E; auto).
+    destruct (held_live K s t i q I Ht Hq') as (Hl & _). pose proof (live_lt _ _ Hl) as Hlt.
+    assert (Hget : forall z, get_obj (upd (s_heap s) q (set_val (get_obj (s_heap s) q) v)) z =
+                             if z =? q then set_val (get_obj (s_heap s) q) v else get_obj (s_heap s) z).
+    { intros z. destruct (z =? q) eqn:Ez.
+      - apply Nat.eqb_eq in Ez. subst z. apply get_upd_same; auto.
+      - apply Nat.eqb_neq in Ez. apply get_upd_other; auto. }
+    apply (heapeq_core K s t stk (OSetVal i v) prog); auto.
+    + apply upd_length.
+    + intros z. rewrite Hget. destruct (z =? q) eqn:Ez; auto 10. apply Nat.eqb_eq in Ez. subst z. cbn. auto 10.
+    + intros z. right. rewrite Hget. destruct (z =? q) eqn:Ez; auto. apply Nat.eqb_eq in Ez. subst z. reflexivity.
+    + intros o. pose proof (heap_units_upd (s_heap s) q (set_val (get_obj (s_heap s) q) v) o Hlt) as HH.
+      change (obj_units o (set_val (get_obj (s_heap s) q) v)) with (obj_units o (get_obj (s_heap s) q)) in HH. lia.
+  - (* ODrain *)
+    injection Hb as <- <- <- <-. apply (begin_core K s t stk ODrain prog); auto.
+    apply ok_single; [exact Logic.I|discriminate|discriminate].
+Qed.
+
+End Main.
